@@ -972,6 +972,11 @@ def check_C20(sc, v, tier, seed, replay):
         t2 = os.path.join(sc.work, "stress%d.ndjson" % gcount)
         sc.run("rec-conc", ["-seed", seed, "-out", t2, "-stress", gcount, "-rounds", 12 if tier == "quick" else 40], env=env, timeout=1800)
         evs += open(t2).read().splitlines()
+    # tight variant: primitives and codecs only, each goroutine under its own keys, many closely spaced calls
+    for gcount in ([8] if tier == "quick" else [3, 8, 64]):
+        t3 = os.path.join(sc.work, "tight%d.ndjson" % gcount)
+        sc.run("rec-conc", ["-seed", seed, "-out", t3, "-stress", gcount, "-rounds", 1000 + (500 if tier == "quick" else 1500)], env=env, timeout=1800)
+        evs += open(t3).read().splitlines()
     import glob
     races = 0
     where = set()
